@@ -18,16 +18,16 @@ var loopFuncs = map[string]loopFunc{
 }
 
 func funcIndex(s *state, key string) data.Value {
-	return s.context.lookup(key + "__index")
+	return s.context.lookup(key + loopIndexKey)
 }
 
 func funcIsFirst(s *state, key string) data.Value {
-	return data.Bool(s.context.lookup(key+"__index").(data.Int) == 0)
+	return data.Bool(s.context.lookup(key+loopIndexKey).(data.Int) == 0)
 }
 
 func funcIsLast(s *state, key string) data.Value {
 	return data.Bool(
-		s.context.lookup(key+"__index").(data.Int) == s.context.lookup(key+"__lastIndex").(data.Int))
+		s.context.lookup(key+loopIndexKey).(data.Int) == s.context.lookup(key+loopLastIndexKey).(data.Int))
 }
 
 // Func represents a Soy function that may be invoked within a Soy template.
@@ -151,6 +151,14 @@ func funcStrContains(v []data.Value) data.Value {
 }
 
 const maxInt = int(^uint(0) >> 1)
+
+// The position in a loop and its last position are kept in the loop's scope
+// under the name of the loop variable followed by these. (The dot keeps them
+// apart from every name a template can give a variable: "$x__index" is one.)
+const (
+	loopIndexKey     = ".index"
+	loopLastIndexKey = ".lastIndex"
+)
 
 func funcRange(v []data.Value) data.Value {
 	var (
